@@ -23,6 +23,13 @@ From Coq Require Import List NArith ZArith Bool Arith.
 Import ListNotations.
 From Stam Require Import Model.Offset Model.Store Model.Loader.
 
+(* string literals are evaluated here so that the extracted code is free of Coq's [string] *)
+Definition kind_str : skind -> str := Eval vm_compute in str_of_kind.
+Definition DEFAULT_SET_NAME : str := Eval vm_compute in lit "default-annotationset".
+Definition NULL_TEXT : str := Eval vm_compute in lit "null".
+Definition TRUE_TEXT : str := Eval vm_compute in lit "true".
+Definition FALSE_TEXT : str := Eval vm_compute in lit "false".
+
 (** * Names *)
 
 Definition nat_dec (n : nat) : str := dec (N.of_nat n).
@@ -36,7 +43,7 @@ Definition name_ann (t : nat) : str := 97%N :: nat_dec t.
 Definition name_key (t : nat) : str := 107%N :: nat_dec t.
 Definition name_data (t : nat) : str := 100%N :: nat_dec t.
 Definition name_set (t : nat) : str :=
-  if Nat.eqb t DEFAULT_SET_TOKEN then lit "default-annotationset" else 115%N :: nat_dec t.
+  if Nat.eqb t DEFAULT_SET_TOKEN then DEFAULT_SET_NAME else 115%N :: nat_dec t.
 (* Storable::temp_id *)
 Definition temp_name (letter : N) (h : nat) : str := 33%N :: letter :: nat_dec h.
 Definition LETTER_A : N := 65%N.
@@ -64,8 +71,8 @@ Definition fix_text (z : Z) : str :=
 (* a list prints ", " before every item but the last *)
 Fixpoint value_text (v : value) : str :=
   match v with
-  | VNull => lit "null"
-  | VBool b => if b then lit "true" else lit "false"
+  | VNull => NULL_TEXT
+  | VBool b => if b then TRUE_TEXT else FALSE_TEXT
   | VInt z => z_text z
   | VFix z => fix_text z
   | VStr s => s
@@ -247,13 +254,13 @@ Definition pack_row (s : store) (h : nat) (a : ann) : option csvrow :=
       let dc := data_columns ds in
       match a_kind a, ms with
       | 0, [m] =>
-          Some {| c_id := idcol; c_data := fst dc; c_set := snd dc; c_kind := str_of_kind (m_kind m);
+          Some {| c_id := idcol; c_data := fst dc; c_set := snd dc; c_kind := kind_str (m_kind m);
                   c_res := m_res m; c_ann := m_ann m; c_dset := m_dset m; c_begin := m_begin m;
                   c_end := m_end m; c_key := m_key m; c_tdata := m_tdata m |}
       | 0, _ => None
       | k, _ =>
           Some {| c_id := idcol; c_data := fst dc; c_set := snd dc;
-                  c_kind := str_of_kind (complex_kind k) ++ push_all (map (fun m => str_of_kind (m_kind m)) ms);
+                  c_kind := kind_str (complex_kind k) ++ push_all (map (fun m => kind_str (m_kind m)) ms);
                   c_res := push_all (map m_res ms); c_ann := push_all (map m_ann ms);
                   c_dset := push_all (map m_dset ms); c_begin := push_all (map m_begin ms);
                   c_end := push_all (map m_end ms); c_key := push_all (map m_key ms);
@@ -323,7 +330,7 @@ Definition ref_of_name (plain temp : N) (s : str) : option iref :=
   end.
 
 Definition set_ref_of_name (s : str) : option iref :=
-  if str_eqb s (lit "default-annotationset") then Some (ById DEFAULT_SET_TOKEN)
+  if str_eqb s (DEFAULT_SET_NAME) then Some (ById DEFAULT_SET_TOKEN)
   else match temp_handle_of 83%N s with
        | Some h => Some (ByHandle h)
        | None => option_map ById (parse_tok 115%N s)
@@ -336,7 +343,7 @@ Definition own_tok (plain temp : N) (s : str) : option nat :=
   | None => parse_tok plain s
   end.
 Definition set_tok_of_name (s : str) : option nat :=
-  if str_eqb s (lit "default-annotationset") then Some DEFAULT_SET_TOKEN else parse_tok 115%N s.
+  if str_eqb s (DEFAULT_SET_NAME) then Some DEFAULT_SET_TOKEN else parse_tok 115%N s.
 
 (* StoreFor<DataKey>::insert *)
 Definition dset_add_key (d : dset) (tok : nat) : dset :=
